@@ -22,6 +22,9 @@ def gen(tier, seed):
         add("unknown_key_%s" % nm, "c20-unknown-key", "unknown_key_rejected(%d, key)" % k, ["pre: 1 <= len(key) <= 2 and all(c in 'lDuwkx+ _' for c in key)"],
             "an unknown dictionary key (every string of <= 2 characters over 'lDuwkx+ _' that is not an accepted key) is refused by the %s reader" % nm, "key: str", timeout=200)
         add("missing_key_%s" % nm, "c20-missing-key", "missing_key_rejected(%d, j)" % k, ["pre: 0 <= j <= 2"], "a missing mandatory key is refused by the %s reader" % nm, "j: int")
+    add("double_alias", "c20-double-alias", "double_alias_rejected(k, g, a, b)", ["pre: 0 <= k <= 8 and 0 <= g <= 8 and 0 <= a <= 4 and 0 <= b <= 4"],
+        "a dictionary holding two spellings of one field (the canonical key with an alias, or two aliases, either order) is refused by each of the 9 readers that accept aliases (every field group, every ordered pair of spellings)",
+        "k: int, g: int, a: int, b: int", viol="a doubly-aliased dictionary key is accepted (one value silently overrides the other)")
     from harness_fields import FIELD_NAMES
     for f in FIELD_NAMES:
         add("dim_%s" % f, "c20-dimension:%s" % f, "wrong_dimension_rejected(%r, s, t, q)" % f, ["pre: -3 <= s <= 3 and -2 <= t <= 2 and -2 <= q <= 2"],
